@@ -47,3 +47,65 @@ def explore(make, ops, apply_op, dump, depth, same, invariant=None, max_states=2
                 frontier.append(hist + (i,))
                 maxdepth = max(maxdepth, len(hist) + 1)
     return {"states": len(seen), "transitions": transitions, "violations": violations, "capped": capped, "max_depth": maxdepth}
+
+
+def explore_interleaved(make, builders, queries, apply_builder, apply_query, same, depth, max_queries=2, invariant=None):
+    """BFS over histories that INTERLEAVE builder operations (which change the
+    object's value) with queries.  Oracle: every query's answer equals the answer
+    of a fresh object that received the same builder operations and no earlier
+    query.  A history is a tuple of ('b', i) / ('q', j).  States are not merged
+    (a cache populated at different times has different futures); the space is
+    bounded by `depth` and by at most `max_queries` queries per history.
+    Returns dict(histories, transitions, violations=[(history, have, want)])."""
+    fresh_cache = {}
+
+    def fresh_answer(bseq, qj):
+        k = (bseq, qj)
+        if k not in fresh_cache:
+            obj = make()
+            for i in bseq:
+                apply_builder(obj, builders[i])
+            fresh_cache[k] = apply_query(obj, queries[qj])
+        return fresh_cache[k]
+
+    histories = 0
+    transitions = 0
+    violations = []
+    frontier = deque([()])
+    while frontier:
+        hist = frontier.popleft()
+        histories += 1
+        if len(hist) >= depth:
+            continue
+        nq = sum(1 for k, _ in hist if k == "q")
+        ops = [("b", i) for i in range(len(builders))]
+        if nq < max_queries and hist:  # a query on the empty object is covered by fresh objects elsewhere
+            ops += [("q", j) for j in range(len(queries))]
+        for op in ops:
+            if op[0] == "q" and hist and hist[-1] == op:
+                continue  # the same query twice in a row adds nothing new beyond E3
+            new = hist + (op,)
+            transitions += 1
+            if op[0] == "q":
+                # replay the history on a fresh object, then compare the last answer
+                obj = make()
+                ans = None
+                for k, i in new:
+                    if k == "b":
+                        apply_builder(obj, builders[i])
+                    else:
+                        ans = apply_query(obj, queries[i])
+                bseq = tuple(i for k, i in new if k == "b")
+                want = fresh_answer(bseq, op[1])
+                if not same(ans, want):
+                    violations.append((list(new), ans, want))
+                if invariant is not None:
+                    msg = invariant(obj)
+                    if msg:
+                        violations.append((list(new), msg, "invariant"))
+                # a history ending in a query is only extended if a builder op can follow
+                if len(new) < depth:
+                    frontier.append(new)
+            else:
+                frontier.append(new)
+    return {"histories": histories, "transitions": transitions, "violations": violations}
